@@ -99,7 +99,8 @@ def build_fi(bt, spec):
                         elif pt["mode"] == "x10":
                             col[i] = col[i] * 10.0
                         else:
-                            col[i] = abs(col[i]) * r.uniform(0.2, 3.0) + (1.0 if name == "prices" else 0.0)
+                            # (a coupon / cost of exactly zero may well become non-zero later on)
+                            col[i] = abs(col[i]) * r.uniform(0.2, 3.0) + (1.0 if name == "prices" else r.choice([0.0, 0.25, 0.5]))
         for i in range(k, len(sp["notional"])):
             sp["notional"][i] = sp["notional"][i] * 7.0
     return FI.build_program(bt, sp)
@@ -296,8 +297,16 @@ def run(ctx, bt, scale=1):
         if len(ctx.samples) < 2:
             ctx.sample({"tree": spec["tree"], "plan": spec["perturb_plan"]})
         run_pair(ctx, bt, spec, build_program)
-    for _ in range(ctx.scale(20, 500) * scale):
+    for _ in range(ctx.scale(40, 800) * scale):
         spec = FI.gen_program(ctx.rng, winddown=True)
+        if ctx.rng.random() < 0.5:
+            # a security that pays nothing over the whole sample as supplied (while it does carry a holding cost)
+            nm0 = ctx.rng.choice(spec["names"])
+            spec["coupons"][nm0] = [0.0] * len(spec["dates"])
+            for side in ("cost_long", "cost_short"):
+                if spec.get(side) is None:
+                    spec[side] = {}
+                spec[side][nm0] = [0.125] * len(spec["dates"])
         spec["kind"] = "fi"
         spec["perturb_plan"] = gen_plan(ctx.rng, spec["dates"])
         if spec["perturb_plan"]["mode"] in ("flip", "drop"):
